@@ -17,6 +17,7 @@ import (
 	"github.com/safing/portbase/log"
 	"github.com/safing/portbase/modules"
 	"github.com/safing/portbase/rng"
+	"github.com/safing/portbase/utils"
 	"github.com/safing/portbase/utils/vhook"
 )
 
@@ -378,7 +379,8 @@ func updateAPIKeys(_ context.Context, _ interface{}) error {
 	validAPIKeys := []string{}
 
 	// Parse new keys.
-	for _, key := range configuredAPIKeys() {
+	currentSetting := configuredAPIKeys()
+	for _, key := range currentSetting {
 		u, err := url.Parse(key)
 		if err != nil {
 			log.Errorf("api: failed to parse configured API key %s: %s", key, err)
@@ -441,6 +443,19 @@ func updateAPIKeys(_ context.Context, _ interface{}) error {
 
 	if hasExpiredKeys {
 		module.StartLowPriorityMicroTask("api key cleanup", 0, func(ctx context.Context) error {
+			// This runs some time after the keys were evaluated. Only write the
+			// cleaned list back if the setting still is the one it was derived
+			// from. If the setting was changed in the meantime, writing it would
+			// revert that change (and bring back keys that were removed). The
+			// update triggered by the newer change cleans up on its own.
+			// Hold the lock until the setting is written, so that concurrent
+			// clean-ups cannot both pass this check.
+			apiKeysLock.Lock()
+			defer apiKeysLock.Unlock()
+			if !utils.StringSliceEqual(configuredAPIKeys(), currentSetting) {
+				return nil
+			}
+
 			if err := config.SetConfigOption(CfgAPIKeys, validAPIKeys); err != nil {
 				log.Errorf("api: failed to remove expired API keys: %s", err)
 			} else {
